@@ -50,7 +50,7 @@ ZOfCode(c) == CHOOSE z \in ElementZ : SymCode[z] = c
 
 (* ---- decorations for labels ------------------------------------------------ *)
 DigitRuns == <<"1", "12", "3", "07", "101">>
-Suffixes == <<"", "A", "_F2____1____i", "'", "*", "B2", "_2", "a_", " x">>
+Suffixes == <<"", "A", "_F2____1____i", "'", "*", "B2", "_2", "a_", " x", "\n", "_3\r\n">>       \* the last two: an unstripped file line
 Pads == <<" ", "  ", "\t">>
 LabelText(c, v, d, s) == PairText(c, v) \o DigitRuns[d] \o Suffixes[s]
 LongTails == <<"q", "qx", "xq1", "zzq2_a", "qqqqq">>
@@ -59,6 +59,9 @@ NumText(z, style) == CASE style = 1 -> ToString(z)
                        [] style = 3 -> "00" \o ToString(z)
                        [] style = 4 -> " " \o ToString(z) \o " "
 
+(* spellings of element names that are not the library's (the table says Aluminium, Sulfur, Caesium; Wolfram, Natrium, Kalium are
+   other languages' names): they name no element here - above all they must not resolve to a neighbour of the element meant *)
+AltNames == <<"aluminum", "sulphur", "cesium", "wolfram", "natrium", "kalium", "Aluminum", "SULPHUR", "Cesium">>
 (* a digit string decorated the way Python's int() tolerates but no chemist writes: these are not numbers of elements *)
 NumJunkText(z, style) == CASE style = 1 -> "+" \o ToString(z)
                            [] style = 2 -> (IF z >= 10 THEN ToString(z \div 10) \o "_" \o ToString(z % 10) ELSE "0_" \o ToString(z))
@@ -79,6 +82,7 @@ SpellingText(sp) ==
     [] sp.kind = "badlong" -> PairText(SymCode[sp.z], sp.v) \o LongTails[sp.a]
     \* something that is not a letter in front of a symbol ("100K", "0b1", "#N", "1.5f"): the string does not START with the
     \* symbol, it names no element (an atom label starts with the symbol; a number is a number only as a whole)
+    [] sp.kind = "altname" -> AltNames[sp.v]
     [] sp.kind = "numjunk" -> NumJunkText(sp.z, sp.v)
     [] sp.kind = "prefixed" -> LeadJunk[sp.a] \o PairText(SymCode[sp.z], sp.v) \o JunkTails[sp.b]
 
@@ -87,7 +91,7 @@ DeuteriumCode == <<4, 0>>
 BadCodes == {c \in ((1..26) \X (0..26)) : ~IsSymbolCode(c) /\ c # DeuteriumCode}
 
 (* what a spelling must resolve to: an atomic number, or 0 for "must be rejected" *)
-Lookup(sp) == IF sp.kind \in {"bad", "badlong", "prefixed", "numjunk"} THEN 0 ELSE IF sp.z \in ElementZ THEN sp.z ELSE 0     \* "0", "104", ... are digit strings naming no element
+Lookup(sp) == IF sp.kind \in {"bad", "badlong", "prefixed", "numjunk", "altname"} THEN 0 ELSE IF sp.z \in ElementZ THEN sp.z ELSE 0     \* "0", "104", ... are digit strings naming no element
 LookupInt(n) == IF n \in ElementZ THEN n ELSE 0
 
 (* ---- ordering and formulas --------------------------------------------------- *)
